@@ -10,6 +10,10 @@ from .types import CodeBlock
 from .metacommand_impl import metacommand, get_as_int, get_as_str, int8, int16, int32, uint, uint16
 
 
+# A file that includes itself would otherwise recurse until Python gives up
+MAX_INCLUDE_DEPTH = 32
+
+
 @metacommand(size=lambda state, *operands: len(operands) or 1, alias=".db")
 def byte(state, *byte_operand: int8) -> bytes:
     if not byte_operand:
@@ -367,6 +371,12 @@ def link(state, address: int) -> bytes:
 def include(state, included_file_path: str):
     include_path = devices.resolve_relative_path(included_file_path, state["filename"])
 
+    if state["compiler"].include_depth >= MAX_INCLUDE_DEPTH:
+        reports.critical(
+            "recursive-include",
+            (state["insn"].ctx_start, state["insn"].ctx_end, f"Files are included more than {MAX_INCLUDE_DEPTH} levels deep.\nDoes '{include_path}' include itself? Add '.once' to the files that are meant to be included once.")
+        )
+
     try:
         with open(include_path, "r") as f:
             code = f.read()
@@ -400,7 +410,11 @@ def include(state, included_file_path: str):
     from . import parser
     file_ast = parser.parse(include_path, code)
 
-    code = state["compiler"].compile_include(file_ast, state["emit_address"])
+    state["compiler"].include_depth += 1
+    try:
+        code = state["compiler"].compile_include(file_ast, state["emit_address"])
+    finally:
+        state["compiler"].include_depth -= 1
 
     return code
 
